@@ -414,7 +414,7 @@ def assemble(unit, repo):
                 block = {"in": val["anchor"], "from": val["block_from"], "to": val.get("block_to") or ("(up to) " + val["block_until"] if val.get("block_until") else "(closing brace of the first block)"), "lines": t[0] - f[0] + 1}
                 a, b = off, off + len(text)
                 # a block that ends inside nested braces (e.g. at a `break;`) is closed like a cut function
-                stripped_b = re.sub(r'"(\\.|[^"\\])*"|//[^\n]*', "", text)
+                stripped_b = _mask(text)
                 bdepth = max(0, stripped_b.count("{") - stripped_b.count("}"))
                 sig, body = val["block_sig"] + " ", "{\n" + text + "\n" + "}" * bdepth + "\n" + "\n".join([val.get("tail", "")] + val.get("tail_lines", [])) + "\n}"
             real_sha = hashlib.sha256(srcs[sp][a:b].encode()).hexdigest()
@@ -440,7 +440,7 @@ def assemble(unit, repo):
                 if val.get("cut_before"):
                     hits[0] -= 1
                 kept = "\n".join(bl[: hits[0] + 1])
-                stripped = re.sub(r'"(\\.|[^"\\])*"|//[^\n]*', "", kept)
+                stripped = _mask(kept)
                 depth = stripped.count("{") - stripped.count("}")
                 shape["cut"] = {"after" if val.get("cut_after") else "before": cut, "body_lines_kept": hits[0] + 1, "body_lines_dropped": len(bl) - hits[0] - 1}
                 # `#tail <expr>`: the value a cut function returns where the dropped remainder would have continued
